@@ -16,6 +16,7 @@ import (
 func main() {
 	ev.GuardFor("C01")
 	r := ev.Start("C01")
+	defer r.FinishOnPanic()
 	r.SetDeadline(ev.Pick(r, 50*time.Second, 900*time.Second))
 	type cfg struct {
 		name string
@@ -31,7 +32,7 @@ func main() {
 	var parts []string
 	for _, c := range cfgs {
 		c := c
-		res := seqmc.Explore(r, seqmc.Config{Name: c.name, New: func() seqmc.Sys {
+		res := seqmc.Explore(r, seqmc.Config{Name: c.name, GoTest: avlh.GoTest(c.p, c.str), New: func() seqmc.Sys {
 			if c.str {
 				return avlh.NewStruct(c.p)
 			}
